@@ -8,7 +8,7 @@ import numpy
 from hypothesis import strategies as st
 
 from pbt import lattice
-from pbt.core import call, draw_tz
+from pbt.core import call, draw_tz, workdir
 
 PROP = "C14"
 TECHNIQUE = "Hypothesis-generated catalogs (awkward ids, all ms phases over 1900..2200, extreme / 17-digit doubles) through four write->load round trips compared field by field, bitwise"
@@ -74,7 +74,7 @@ def check_case(ctx, case):
     def fresh(evs=None):
         return CSEPCatalog(data=list(events if evs is None else evs), catalog_id=cid, name=case["name"], region=region)
 
-    with tempfile.TemporaryDirectory() as d:
+    with workdir() as d:
         # ---- ASCII
         p = os.path.join(d, "cat.csv")
         if case.get("pathlib"):
